@@ -179,6 +179,10 @@ def constructed(rng):
             p = 18 + q - k
             if 0 <= p <= 18 and rng.random() < 0.5:
                 dd(v, p, rng.choice((1, -1, 3, 7, rng.randrange(1, 10 ** 9), rng.randrange(1, M))), q)
+    # 6d. Decimals at the ends of an integer type's range against that type's -1 / 1 / 2 / ends (T::MIN / -1 natively)
+    for dt, it in C.native_width_cases(rng):
+        out.append("%s * %s %s" % (rng.choice(("div", "cdiv")), dt, it))
+        out.append("%s * %s %s" % (rng.choice(("div", "cdiv")), it, dt))
     # 7. integer operands
     for ty in OP_INT_TYPES:
         lo, hi = INT_TYPES[ty]
